@@ -11,7 +11,9 @@ pub struct RegEq<'a> {
     pub reg: &'a PortableRegistry,
     pa: Vec<Option<u32>>,
     pb: Vec<Option<u32>>,
-    visited: HashSet<(u32, u32)>,
+    /// visited pairs, together with the parameters in scope when they were visited (whether two
+    /// ids are equal depends on which parameters may explain a difference)
+    visited: HashSet<(u32, u32, Vec<Option<u32>>, Vec<Option<u32>>)>,
     at_root: bool,
     /// compare variant indices (wire-relevant) — always on
     pub steps: usize,
@@ -59,7 +61,9 @@ impl<'a> RegEq<'a> {
         if a == b {
             return true;
         }
-        if !self.visited.insert((a, b)) {
+        // the root pair is compared up to its own arguments; a nested occurrence of the same pair
+        // must have its arguments lined up, so the root is not noted
+        if !self.at_root && !self.visited.insert((a, b, self.pa.clone(), self.pb.clone())) {
             return true;
         }
         self.steps += 1;
@@ -91,7 +95,29 @@ impl<'a> RegEq<'a> {
                 }
             }
         }
+        let was_root = self.at_root;
         self.at_root = false;
+        // one item is emitted per path, generic over ITS OWN parameters: inside a nested struct or
+        // enum only its own parameters (lined up above against the parameters in scope) can explain
+        // a difference, not those of the enclosing definition
+        let named = matches!(ta.type_def, TypeDef::Composite(_) | TypeDef::Variant(_));
+        let saved = if named && !was_root {
+            let own_a: Vec<Option<u32>> = ta.type_params.iter().map(|p| p.ty.map(|t| t.id)).collect();
+            let own_b: Vec<Option<u32>> = tb.type_params.iter().map(|p| p.ty.map(|t| t.id)).collect();
+            Some((std::mem::replace(&mut self.pa, own_a), std::mem::replace(&mut self.pb, own_b)))
+        } else {
+            None
+        };
+        let res = self.content(a, b);
+        if let Some((pa, pb)) = saved {
+            self.pa = pa;
+            self.pb = pb;
+        }
+        res
+    }
+
+    fn content(&mut self, a: u32, b: u32) -> bool {
+        let (Some(ta), Some(tb)) = (self.reg.resolve(a), self.reg.resolve(b)) else { return false };
         match (&ta.type_def, &tb.type_def) {
             (TypeDef::Composite(x), TypeDef::Composite(y)) => self.fields(&x.fields, &y.fields),
             (TypeDef::Variant(x), TypeDef::Variant(y)) => {
